@@ -375,7 +375,7 @@ static void multi_iteration(report& r)
         }
         else if (kind == 1)
         {
-            auto chk = hep::make_vegas_chkpt<T, vf::script_engine>(2, T(1.5), gen);
+            auto chk = hep::make_vegas_chkpt<T, vf::script_engine>(2, T(0.75), gen);
             chk = dist ? hep::vegas(hep::make_integrand<T>(fn<T>(), 2, dparams), calls, chk, vf::never_stop())
                        : hep::vegas(hep::make_integrand<T>(fn<T>(), 2), calls, chk, vf::never_stop());
             if (chk.results().size() != calls.size() || s.log.size() != total) { r.violate("integrand-call-count", id, what + ": " + std::to_string(s.log.size()) + " calls logged, " + std::to_string(total) + " requested"); continue; }
@@ -409,12 +409,50 @@ static void multi_iteration(report& r)
     }
 }
 
+// The accessors for counters no iteration of a check can run through (N beyond 2^32): results as they are
+// read back from a checkpoint of a long run.  value, variance and error must follow the documented
+// formulas for every N a std::size_t can hold.
+template <typename T>
+static void large_counts(report& r)
+{
+    L const eps = std::numeric_limits<T>::epsilon();
+    std::vector<sz> const ns = {2, 3, 1000, 65535, 65536, 65537, (sz(1) << 31) - 1, sz(1) << 31, (sz(1) << 32) - 1, sz(1) << 32, (sz(1) << 32) + 1,
+        (sz(1) << 32) + 2, 3 * (sz(1) << 32) + 7, sz(1) << 40, (sz(1) << 53) + 1, sz(1) << 62, ~sz(0)};
+    std::vector<std::pair<L, L>> const shapes = {{1, 1}, {0.5L, 2}, {-3, 0.25L}, {0, 1}, {1e-3L, 1e-3L}, {100, 1}};   // mean and spread of f*w
+    for (sz n : ns) for (auto const& sh : shapes) for (int text = 0; text != 2; ++text)
+    {
+        std::string const id = std::string(vf::type_name<T>()) + " large-counts N=" + std::to_string(n) + " mean=" + vf::dec(sh.first) + " spread=" + vf::dec(sh.second) + (text ? " read-from-text" : "");
+        if (!r.want(id)) continue;
+        T const sum = T(L(n) * sh.first), sumsq = T(L(n) * (sh.first * sh.first + sh.second * sh.second));
+        if (!std::isfinite(sum) || !std::isfinite(sumsq) || !std::isfinite(sum * sum)) continue;   // the documented formula squares the sum: out of T's range for float at N >= 2^62
+        hep::plain_result<T> res(std::vector<hep::distribution_result<T>>(), n, n / 2 + 1, n / 2 + 1, sum, sumsq);
+        if (text)
+        {
+            std::ostringstream o; res.serialize(o);
+            std::istringstream in(o.str());
+            res = hep::plain_result<T>(in);
+        }
+        r.eval();
+        L const ln = n, ev = L(res.sum()) / ln;
+        if (res.calls() != n) { r.violate("calls", id, id + ": calls() = " + std::to_string(res.calls())); continue; }
+        if (!(std::fabs(L(res.value()) - ev) <= 4 * eps * std::fabs(ev))) r.violate("value", id, id + ": value() = " + vf::dec(L(res.value())) + ", sum/N = " + vf::dec(ev));
+        L const want = (L(res.sum_of_squares()) / ln - ev * ev) / (ln - 1);
+        L const tol = 16 * eps * (L(res.sum_of_squares()) / ln + ev * ev) / (ln - 1);
+        if (!(std::fabs(L(res.variance()) - want) <= tol)) r.violate("variance", id, id + ": variance() = " + vf::dec(L(res.variance())) + ", (sumsq/N - E^2)/(N-1) = " + vf::dec(want));
+        L const var = res.variance();
+        if (var > 0 && !(std::fabs(L(res.error()) - std::sqrt(var)) <= 4 * eps * std::sqrt(var)))
+            r.violate("error", id, id + ": error() = " + vf::dec(L(res.error())) + ", sqrt(variance()) = " + vf::dec(std::sqrt(var)));
+        r.distinct(vf::hash_str(id));
+    }
+}
+
 template <typename T>
 static void for_type(report& r)
 {
     if (!r.want_prefix(vf::type_name<T>())) return;
     sequences<T>(r, r.a().thorough() ? 7 : 5);
     multi_iteration<T>(r);
+    large_counts<T>(r);
     vf::script_engine::table().clear();
 }
 
